@@ -138,9 +138,20 @@ def check_h1(rec: core.Recorder, h, data_flat: np.ndarray, weights_flat: Optiona
                 tot = Fraction(float(h.total)) + Fraction(float(uf)) + Fraction(float(of))
                 if tot != m.total_weight:
                     fail("total + underflow + overflow != total input weight", ["total"], got=float(tot), expected=float(m.total_weight))
-        else:
+        elif "gap" in m.dest:
+            # a value fell into a gap: what lies below / above the bins is no longer the whole of what was missed
             if not (math.isnan(float(uf)) and math.isnan(float(of))):
-                fail("under/overflow of gapped bins should read as unknown (NaN)", ["underflow", "overflow"], got=[uf, of])
+                fail("under/overflow of gapped bins should read as unknown (NaN) once a value fell into a gap", ["underflow", "overflow"], got=[uf, of])
+        else:
+            # gapped bins, but no value in a gap: the weight below the first and above the last bin is known (as single fills report it)
+            eu, eo = float(m.underflow), float(m.overflow)
+            if exact:
+                uo_ok = float(uf) == float(np.asarray(eu).astype(res_dtype)) and float(of) == float(np.asarray(eo).astype(res_dtype))
+            else:
+                uo_ok = abs(float(uf) - eu) <= tol_u and abs(float(of) - eo) <= tol_o
+            if not uo_ok:
+                fail("under/overflow of gapped bins without a value in a gap differ from the weight below the first / above the last bin", ["underflow", "overflow"],
+                     got=[uf, of], expected=[eu, eo])
     if dtype is not None:
         try:
             if np.dtype(dtype) != res_dtype:
